@@ -11,6 +11,7 @@ circuit the noise model produces.
 from __future__ import annotations
 
 import json
+import math
 
 import numpy as np
 
@@ -147,6 +148,7 @@ def run(ctx: common.Run):
                                     'theorem_or_correspondence': 'trajectory_unravel / C09_select_iff'})
     check_conversions(ctx, cirq, n)
     check_noise_models(ctx, cirq, max(10, n // 3))
+    check_thermal(ctx, cirq, max(10, n // 3))
 
 
 def check_conversions(ctx, cirq, n):
@@ -190,6 +192,51 @@ def check_conversions(ctx, cirq, n):
         for prob in problems:
             ctx.report_witness(f'conversion:{prob}', f'{prob}: channel descriptions disagree', {'lines': [{'channel': repr(ch)}], 'impl_out': ['...'], 'spec_out': ['...'],
                                'theorem_or_correspondence': 'kraus_mixture_super_choi / C09_reshuffle_involution'})
+
+
+def check_thermal(ctx, cirq, n):
+    """the thermal noise model inserts, after each moment, the relaxation channel of the documented rates over the moment's
+    duration (that of its longest operation): populations decay with the cooling rate, coherences with gc/2 + gd"""
+    rng = ctx.substream('thermal')
+    qs = cirq.LineQubit.range(3)
+    for _ in range(n):
+        gc = rng.choice([0.0, 1e-3, 5e-3])
+        gd = rng.choice([0.0, 2e-3, 1e-2])
+        if gc == 0 and gd == 0:
+            gc = 2e-3
+        durations = {cirq.ZPowGate: rng.choice([0.0, 10.0]), cirq.XPowGate: 25.0, cirq.CZPowGate: rng.choice([32.0, 60.0])}
+        model = cirq.devices.ThermalNoiseModel(qubits=set(qs), gate_durations_ns=dict(durations), cool_rate_GHz=gc, dephase_rate_GHz=gd, require_physical_tag=False)
+        cands = [(cirq.X(qs[0]), 25.0), (cirq.Z(qs[1]) ** 0.3, durations[cirq.ZPowGate]), (cirq.wait(qs[2], nanos=rng.choice([5, 100, 200])), None), (cirq.CZ(qs[0], qs[1]), durations[cirq.CZPowGate]),
+                 (cirq.X(qs[2]) ** 0.5, 25.0), (cirq.wait(qs[1], nanos=rng.choice([1, 50, 400])), None)]
+        rng.shuffle(cands)
+        ops_, used = [], set()
+        for op, dur in cands:
+            if not (set(op.qubits) & used):
+                ops_.append((op, dur if dur is not None else op.gate.duration.total_nanos()))
+                used |= set(op.qubits)
+        moment = cirq.Moment([o for o, _ in ops_])
+        t = max(d for _, d in ops_)
+        out = list(cirq.flatten_to_ops(model.noisy_moment(moment, qs)))
+        noise = [o for o in out if o not in moment.operations]
+        ctx.count('check', 'thermal-moment')
+        ctx.case(['thermal', repr(moment), gc, gd], len(ops_) >= 2)
+        rep = {'lines': [{'moment': repr(moment), 'cool_rate_GHz': gc, 'dephase_rate_GHz': gd, 'durations_ns': {k.__name__: v for k, v in durations.items()}}], 'theorem_or_correspondence': 'documented relaxation over the longest operation'}
+        if t == 0:
+            if noise:
+                ctx.report_witness('thermal:channel', 'noise inserted after a zero-duration moment', dict(rep, impl_out=[repr(noise)[:300]], spec_out=['none']))
+            continue
+        if sorted(o.qubits[0] for o in noise) != sorted(qs):
+            ctx.report_witness('thermal:channel', 'the thermal model does not put one relaxation channel on every system qubit', dict(rep, impl_out=[repr(noise)[:300]], spec_out=[repr(qs)]))
+            continue
+        e1, f = math.exp(-gc * t), math.exp(-(gc / 2 + gd) * t)
+        # superoperator acting on vec(rho) = (rho00, rho01, rho10, rho11)
+        want = np.array([[1, 0, 0, 1 - e1], [0, f, 0, 0], [0, 0, f, 0], [0, 0, 0, e1]], dtype=complex)
+        for o in noise:
+            got = cirq.kraus_to_superoperator(cirq.kraus(o))
+            if not np.allclose(got, want, atol=1e-9):
+                ctx.report_witness('thermal:channel', 'the inserted thermal channel is not the documented relaxation over the duration of the longest operation of the moment',
+                                   dict(rep, impl_out=[repr(np.round(got, 8).tolist())], spec_out=[repr(np.round(want, 8).tolist()), {'duration_ns': t}]))
+                break
 
 
 def check_noise_models(ctx, cirq, n):
